@@ -47,6 +47,11 @@ func (mb *mbox) newMessage() (*Message, error) {
 	}
 	date := time.Now()
 	id := generateID(date)
+	for mb.hasID(id) {
+		// The counter restarts with the process, never reuse the ID of an existing message.
+		date = time.Now()
+		id = generateID(date)
+	}
 	return &Message{mailbox: mb, Fid: id, Fdate: date}, nil
 }
 
@@ -101,4 +106,14 @@ func (m *Message) Source() (reader io.ReadCloser, err error) {
 // Seen returns the seen flag value.
 func (m *Message) Seen() bool {
 	return m.Fseen
+}
+
+// hasID returns true if the loaded index contains a message with the specified ID.
+func (mb *mbox) hasID(id string) bool {
+	for _, m := range mb.messages {
+		if m.Fid == id {
+			return true
+		}
+	}
+	return false
 }
